@@ -20,7 +20,8 @@ AUTO = {("experiment", "event count"), ("setup", "software version"),
 
 EXP = {
     "str": {"text": "some text", "Mixed Case Text": "Mixed Case Text",
-            "unicode": "µm² Größe"},
+            "unicode": "µm² Größe", "numeric text": "007",
+            "yes-no text": "n"},
     "lcstr": {"lower": "channel"},
     "float": {"1.5": 1.5, "0": 0.0, "-2": -2.0, "1e-7": 1e-7,
               "3 (integral)": 3.0},
@@ -114,6 +115,18 @@ def assign(route, sec, key, val, tmp):
         cfg[sec].update({key: val})
     elif route == "constructor":
         cfg = Configuration(cfg={sec: {key: val}})
+    elif route == "file other case":
+        c0 = Configuration()
+        c0[sec][key] = val
+        c0.save(tmp)
+        lines = []
+        for ln in tmp.read_text(encoding="utf-8").split("\n"):
+            if "=" in ln and not ln.strip().startswith("["):
+                k, v = ln.split("=", 1)
+                ln = k.title() + "=" + v
+            lines.append(ln)
+        tmp.write_text("\n".join(lines), encoding="utf-8")
+        cfg = Configuration(files=[tmp])
     elif route == "file":
         c0 = Configuration()
         c0[sec][key] = val
